@@ -89,6 +89,19 @@ package cfg
 //@ spec gnBackoff(c route.GrafanaNetConfig, rc Route) bool := c.ErrBackoffFactor == (!feq(rc.ErrBackoffFactor, f64zero) ? rc.ErrBackoffFactor : f64lit("3/2"))
 //@ spec gnCfgOf(e elem) route.GrafanaNetConfig := as(routeOf(e), *route.GrafanaNet).Cfg
 //@ spec isGn(rc Route) bool := rc.Type == "grafanaNet"
+// kafkaMdm / pubsub / cloudWatch sections: the options the constructors keep in the route (the Kafka codec and timeout and the
+// TLS/SASL options go into the client library's configuration and are not specified), over the defaults written in InitRoutes
+//@ spec kafkaAsConfigured(r route.Route, rc Route) bool := typeIs(r, *route.KafkaMdm) && allocated(r) && as(r, *route.KafkaMdm).topic == rc.Topic && as(r, *route.KafkaMdm).brokers == rc.Brokers
+//@      && as(r, *route.KafkaMdm).blocking == rc.Blocking && as(r, *route.KafkaMdm).orgId == (rc.OrgId != 0 ? rc.OrgId : 1) && as(r, *route.KafkaMdm).bufSize == (rc.BufSize != 0 ? rc.BufSize : 10000000)
+//@      && as(r, *route.KafkaMdm).flushMaxNum == (rc.FlushMaxNum != 0 ? rc.FlushMaxNum : 10000) && as(r, *route.KafkaMdm).flushMaxWait == mul64((rc.FlushMaxWait != 0 ? rc.FlushMaxWait : 500), 1000000)
+//@ spec pubsubAsConfigured(r route.Route, rc Route) bool := typeIs(r, *route.PubSub) && allocated(r) && as(r, *route.PubSub).project == rc.Project && as(r, *route.PubSub).topic == rc.Topic
+//@      && as(r, *route.PubSub).format == (rc.Format != "" ? rc.Format : "plain") && as(r, *route.PubSub).codec == (rc.Codec != "" ? rc.Codec : "gzip") && as(r, *route.PubSub).blocking == rc.Blocking
+//@      && as(r, *route.PubSub).bufSize == (rc.BufSize != 0 ? rc.BufSize : 10000000) && as(r, *route.PubSub).flushMaxSize == (rc.FlushMaxSize != 0 ? rc.FlushMaxSize : 9995904)
+//@      && as(r, *route.PubSub).flushMaxWait == mul64((rc.FlushMaxWait != 0 ? rc.FlushMaxWait : 1000), 1000000)
+//@ spec cloudWatchAsConfigured(r route.Route, rc Route) bool := typeIs(r, *route.CloudWatch) && allocated(r) && as(r, *route.CloudWatch).awsProfile == rc.Profile && as(r, *route.CloudWatch).awsRegion == rc.Region
+//@      && as(r, *route.CloudWatch).awsNamespace == rc.Namespace && as(r, *route.CloudWatch).storageResolution == (rc.StorageResolution != 0 ? rc.StorageResolution : 60) && as(r, *route.CloudWatch).blocking == rc.Blocking
+//@      && as(r, *route.CloudWatch).bufSize == (rc.BufSize != 0 ? rc.BufSize : 10000000) && as(r, *route.CloudWatch).flushMaxSize == (rc.FlushMaxSize != 0 ? rc.FlushMaxSize : 20)
+//@      && as(r, *route.CloudWatch).flushMaxWait == mul64((rc.FlushMaxWait != 0 ? rc.FlushMaxWait : 10000), 1000000)
 //@ spec gnBase(c route.GrafanaNetConfig, rc Route) bool := c.Addr == rc.Addr && c.ApiKey == rc.ApiKey && c.SchemasFile == rc.SchemasFile && c.AggregationFile == rc.AggregationFile
 //@      && c.BufSize == 10000000 && c.FlushMaxNum == 5000 && c.FlushMaxWait == 500000000 && c.Timeout == 10000000000 && c.Concurrency == 100 && c.OrgID == 1
 //@      && c.ErrBackoffMin == 100000000 && c.ErrBackoffFactor == f64lit("3/2") && (bhasSuffix(c.Addr, "/metrics") || bhasSuffix(c.Addr, "/metrics/"))
@@ -103,8 +116,15 @@ package cfg
 //@   ensures[grafanaNet_options; C20] err == nil ==> (forall j int :: 0 <= j && j < len(config.Route) && isGn(config.Route[j]) ==> gnIsRoute(routeOf(lget(calls(table.AddRoute), llen(L0) + j)))
 //@        && gnRequired(gnCfgOf(lget(calls(table.AddRoute), llen(L0) + j)), config.Route[j]) && gnSizes(gnCfgOf(lget(calls(table.AddRoute), llen(L0) + j)), config.Route[j])
 //@        && gnDurations(gnCfgOf(lget(calls(table.AddRoute), llen(L0) + j)), config.Route[j]) && gnBackoff(gnCfgOf(lget(calls(table.AddRoute), llen(L0) + j)), config.Route[j]))
+//@   ensures[kafka_pubsub_cloudwatch_options; C20] err == nil ==> (forall j int :: 0 <= j && j < len(config.Route) ==>
+//@        (config.Route[j].Type == "kafkaMdm" ==> kafkaAsConfigured(routeOf(lget(calls(table.AddRoute), llen(L0) + j)), config.Route[j]))
+//@        && (config.Route[j].Type == "pubsub" ==> pubsubAsConfigured(routeOf(lget(calls(table.AddRoute), llen(L0) + j)), config.Route[j]))
+//@        && (config.Route[j].Type == "cloudWatch" ==> cloudWatchAsConfigured(routeOf(lget(calls(table.AddRoute), llen(L0) + j)), config.Route[j])))
 //@   loop 1:
 //@     invariant[idx] 0 <= #i && #i <= len(#s) && #s == config.Route
+//@     invariant[added_kafka] forall j int :: 0 <= j && j < #i && config.Route[j].Type == "kafkaMdm" ==> kafkaAsConfigured(routeOf(lget(calls(table.AddRoute), llen(L0) + j)), config.Route[j])
+//@     invariant[added_pubsub] forall j int :: 0 <= j && j < #i && config.Route[j].Type == "pubsub" ==> pubsubAsConfigured(routeOf(lget(calls(table.AddRoute), llen(L0) + j)), config.Route[j])
+//@     invariant[added_cloudwatch] forall j int :: 0 <= j && j < #i && config.Route[j].Type == "cloudWatch" ==> cloudWatchAsConfigured(routeOf(lget(calls(table.AddRoute), llen(L0) + j)), config.Route[j])
 //@     invariant[count] llen(calls(table.AddRoute)) == llen(L0) + #i
 //@     invariant[added_routes] forall j int :: 0 <= j && j < #i && isGn(config.Route[j]) ==> gnIsRoute(routeOf(lget(calls(table.AddRoute), llen(L0) + j)))
 //@     invariant[added_required] forall j int :: 0 <= j && j < #i && isGn(config.Route[j]) ==> gnRequired(gnCfgOf(lget(calls(table.AddRoute), llen(L0) + j)), config.Route[j])
